@@ -241,6 +241,24 @@ def ver_cmp(ver1: str, rev1: str, ver2: str, rev2: str) -> int:
     return cmp(rev1, rev2)
 
 
+def _ver_hash_key(ver: str) -> tuple:
+    """Canonical form of a version: equal for exactly those versions ver_cmp() treats as equal."""
+    parts = ver.split("_")
+    comps = parts[0].split(".")
+    letter = ""
+    if comps[-1][-1].isalpha():
+        letter = comps[-1][-1]
+        comps[-1] = comps[-1][:-1]
+    key = [int(comps[0])]
+    # components with a leading zero compare as strings with trailing zeros stripped, others as integers
+    key.extend(x.rstrip("0") if x[0] == "0" else x for x in comps[1:])
+    key.append(letter)
+    for suffix in parts[1:]:
+        match = suffix_regexp.match(suffix)
+        key.append((match.group(1), int("0" + match.group(2))))
+    return tuple(key)
+
+
 class CPV(base.base):
     """base ebuild package class
 
@@ -349,7 +367,10 @@ class CPV(base.base):
             sf(self, "package", "-".join(pkg_chunks))
 
     def __hash__(self):
-        return hash(self.cpvstr)
+        # must agree with __eq__, which compares versions via ver_cmp: 1.0 == 1.00
+        if self.version is None:
+            return hash(self.cpvstr)
+        return hash((self.key, _ver_hash_key(self.version), int(self.revision or 0)))
 
     def __repr__(self):
         return f"<{self.__class__.__name__} cpvstr={getattr(self, 'cpvstr', None)} @{id(self):#8x}>"
